@@ -487,7 +487,51 @@ def ctarget(t):
                 lambda v: -nn + ss / math.exp(v) ** 2 - rate * math.exp(v) + 1,
                 lambda v: 2 * ss / math.exp(v) ** 2 + rate * math.exp(v),
                 f"(lp_lm {pre} {ol})", f"(sc_lm_theta {pre} {ol})", f"(in_lm_theta {pre} {ol})")
+    if nm == "hier":
+        yv, sd, o = float(fr(t["y"])), float(fr(t["sd"])), float(fr(t["other"]))
+        pre = f"{rlit(fr(t['y']))} {rlit(fr(t['sd']))}"
+        ol = rlit(fr(t["other"]))
+        sg = lambda u: 1.0 / (1.0 + math.exp(-u))
+        full = lambda tt, u: (4 * tt - math.exp(tt) - math.log(6.0) - math.log1p(math.exp(-u)) - math.log1p(math.exp(u))
+                              - math.log(sd) - (yv - math.exp(tt) * sg(u)) ** 2 / (2 * sd * sd) - math.log(2 * math.pi) / 2)
+        if t["blk"] == "t":
+            u = o
+            xx = lambda v: math.exp(v) * sg(u)
+            return (lambda v: full(v, u), lambda v: 4 - math.exp(v) + (yv - xx(v)) * xx(v) / sd ** 2,
+                    lambda v: math.exp(v) + xx(v) * (2 * xx(v) - yv) / sd ** 2,
+                    f"(fun t => lp_hier {pre} t {ol})", f"(sc_hier_t {pre} {ol})", f"(in_hier_t {pre} {ol})")
+        tt = o
+        th = math.exp(tt)
+        d1 = lambda v: sg(v) * (1 - sg(v))
+        return (lambda v: full(tt, v),
+                lambda v: 1 - 2 * sg(v) + (yv - th * sg(v)) * th * d1(v) / sd ** 2,
+                lambda v: 2 * d1(v) + ((th * d1(v)) ** 2 - (yv - th * sg(v)) * th * d1(v) * (1 - 2 * sg(v))) / sd ** 2,
+                f"(lp_hier {pre} {ol})", f"(sc_hier_u {pre} {ol})", f"(in_hier_u {pre} {ol})")
     raise ValueError(nm)
+
+
+def hier_model(t):
+    """theta ~ Gamma(4,1) (transformed with Exp), x | theta ~ Uniform(0, theta) transformed with its DEFAULT event space
+    bijector, the sigmoid onto (0, theta): the bijector of x depends on another sampled parameter; y ~ N(x, sd)"""
+    j = J()
+    jnp, np, gs, lsl = j["jnp"], j["np"], j["gs"], j["lsl"]
+    kk = ("hier", t["y"], t["sd"])
+    if kk in _LM_CACHE:
+        return _LM_CACHE[kk]
+    import tensorflow_probability.substrates.jax.distributions as tfd
+    import tensorflow_probability.substrates.jax.bijectors as tfb
+    f64 = lambda v: lsl.Value(np.float64(v))
+    theta = lsl.Var(jnp.asarray(1.0), lsl.Dist(tfd.Gamma, concentration=f64(4.0), rate=f64(1.0)), name="theta")
+    theta.parameter = True
+    x = lsl.Var(jnp.asarray(0.5), lsl.Dist(tfd.Uniform, low=f64(0.0), high=theta), name="x")
+    x.parameter = True
+    y = lsl.Var(jnp.asarray(float(fr(t["y"]))), lsl.Dist(tfd.Normal, loc=x, scale=f64(float(fr(t["sd"])))), name="y")
+    y.observed = True
+    tt = theta.transform(tfb.Exp())
+    ux = x.transform()
+    model = lsl.GraphBuilder(to_float32=False).add(y).build_model()
+    _LM_CACHE[kk] = (gs.LieselInterface(model), model.state, tt.name, ux.name)
+    return _LM_CACHE[kk]
 
 
 _LM_CACHE = {}
@@ -557,6 +601,18 @@ def cont_env(t):
             p = iface.extract_position([blk, oth], ms)
             return float(p[blk]), float(p[oth])
         return iface, state_of, blk, read, o, ("lm", tuple(t["ys"]), t["tau"], t["rate"])
+    if nm == "hier":
+        iface, base, tname, uname = hier_model(t)
+        blk, oth = (tname, uname) if t["blk"] == "t" else (uname, tname)
+        o = float(fr(t["other"]))
+
+        def state_of(v):
+            return iface.update_state({blk: A(v), oth: A(o)}, base)
+
+        def read(ms):
+            p = iface.extract_position([blk, oth], ms)
+            return float(p[blk]), float(p[oth])
+        return iface, state_of, blk, read, o, ("hier", t["y"], t["sd"])
     raise ValueError(nm)
 
 
@@ -574,7 +630,7 @@ def cont_observe(spec):
     x, z = float(fr(spec["x"])), float(fr(spec["z"]))
     K = gs.RWKernel if spec["kernel"] == "rw" else gs.IWLSKernel
     key = jax.random.PRNGKey(KEY_SEED)
-    use_jit = spec["kernel"] == "iwls" or t["name"] == "lm" or spec.get("jit", False)
+    use_jit = spec["kernel"] == "iwls" or t["name"] in ("lm", "hier") or spec.get("jit", False)
     ck = (tkey, blk, spec["kernel"], use_jit)
     if ck not in _STEP:
         ker = K([blk], initial_step_size=1.0)
@@ -604,11 +660,14 @@ def cont_observe(spec):
         if spec["kernel"] == "rw":
             zb = (x - y) / s
         else:
-            mu_y = y + s * s / 2 * sc(y) / inf(y)
-            zb = (x - mu_y) * math.sqrt(inf(y)) / s
-        bwd = run(y, zb, 0.0)
+            iy = inf(y) if (math.isfinite(y) and inf(y) > 0) else 1.0
+            mu_y = y + s * s / 2 * sc(y) / iy if math.isfinite(y) else x
+            zb = (x - mu_y) * math.sqrt(iy) / s
+        bwd = run(y if math.isfinite(y) else x, zb, 0.0)
     obs.update(fwd=fwd, rej=rej, bwd=bwd, zb=zb, other=other)
     obs["degenerate"] = (fwd["acc"] < 1e-12 or bwd["acc"] < 1e-12 or y == x) and fwd["code"] == 0 and bwd["code"] == 0
+    if spec["kernel"] == "iwls" and not (inf(x) > 1e-6 and math.isfinite(y) and inf(y) > 1e-6):
+        obs["degenerate"] = True          # IWLS needs a positive information at both ends (Cholesky)
     return obs
 
 
@@ -630,6 +689,8 @@ def cont_oracle(c):
     fwd, rej, bwd = o["fwd"], o["rej"], o["bwd"]
     y = fwd["new"]
     desc = f"{spec['kernel']} on {spec['target']} step {spec['step']} x={x} z={spec['z']}"
+    if o.get("degenerate"):
+        return None
     for nm, r in (("forward", fwd), ("rejected", rej), ("backward", bwd)):
         if r["code"] != 0:
             return f"{desc}: error code {r['code']} in the {nm} move"
@@ -651,7 +712,7 @@ def cont_oracle(c):
     if abs(L - R) > 1e-8 * scale:
         return (f"{desc}: detailed balance fails: pi(x)q(x,y)a(x->y) = {L:.12e} but pi(y)q(y,x)a(y->x) = {R:.12e} "
                 f"(y={y}, a_fwd={fwd['acc']}, a_bwd={bwd['acc']})")
-    if abs(fwd["lp"] - lp(y)) > 1e-8 * (1 + abs(lp(y))) and spec["target"]["name"] in ("pair", "lm"):
+    if abs(fwd["lp"] - lp(y)) > 1e-8 * (1 + abs(lp(y))) and spec["target"]["name"] in ("pair", "lm", "hier"):
         return f"{desc}: log_prob of the returned state {fwd['lp']} is not the density at the new position {lp(y)}"
     return None
 
@@ -683,7 +744,7 @@ def cont_emit_goals(ci, c):
     g.append((f"c{ci}_alpha_fwd", f"Rabs (mh_alpha {lpT} {logq} {x} {y} - {af}) <= {tol}"))
     g.append((f"c{ci}_alpha_bwd", f"Rabs (mh_alpha {lpT} {logq} {y} {x} - {ab}) <= {tol}"))
     g.append((f"c{ci}_detailed_balance", f"Rabs (db_residual {lpT} {logq} {x} {y} {af} {ab}) <= {tol_db}"))
-    if spec["target"]["name"] in ("pair", "lm"):
+    if spec["target"]["name"] in ("pair", "lm", "hier"):
         g.append((f"c{ci}_state_coherent", f"Rabs ({lpT} {y} - {rlit(F(o['fwd']['lp']))}) <= {rlit(Fraction(1, 10 ** 8))}"))
     return g
 
@@ -737,6 +798,17 @@ def glue_env(spec):
         dens = lambda p: jnp.log(p["lam"]) - 3.0 * p["lam"]
         coq = lambda p: f"(ln {rlit(p['lam'])} - 3 * {rlit(p['lam'])})"
         names = {"lam": "lam"}
+    elif m["name"] == "hier":
+        iface, base, tname, uname = hier_model(m)
+        names = {"t": tname, "u": uname}
+        yv, sd = float(fr(m["y"])), float(fr(m["sd"]))
+        state_of = lambda p: iface.update_state({names[k]: jnp.asarray(float(fr(p[k]))) for k in ("t", "u")}, base)
+
+        def dens(p):
+            sg = 1.0 / (1.0 + jnp.exp(-p["u"]))
+            return (4 * p["t"] - jnp.exp(p["t"]) - jnp.log(6.0) - jnp.log1p(jnp.exp(-p["u"])) - jnp.log1p(jnp.exp(p["u"]))
+                    - jnp.log(sd) - (yv - jnp.exp(p["t"]) * sg) ** 2 / (2 * sd * sd) - jnp.log(2 * jnp.pi) / 2)
+        coq = lambda p: f"lp_hier {rlit(fr(m['y']))} {rlit(fr(m['sd']))} {rlit(p['t'])} {rlit(p['u'])}"
     elif m["name"] == "lmraw":
         iface, base = lmraw_model(m)
         names = {"mu": "mu", "sigma": "sigma"}
@@ -817,8 +889,11 @@ def glue_observe(spec):
     lpf = ker.log_prob_fn(st)
     for pr in spec.get("probe_list", []):
         pp = {names[b]: jnp.asarray(float(fr(pr[b]))) for b in blocks}
-        obs["probes"].append({"at": pr, "lpf": xcls(lpf(pp)), "model": xcls(iface.log_prob(iface.update_state(pp, st))),
-                              "closed_form": xcls(ld(pp))})
+        full = {l: pr.get(l, spec["pos"][l]) for l in all_l}               # a probe may also move the OTHER parameters
+        stp = state_of(full) if any(l not in blocks for l in pr) else st
+        fullv = {l: jnp.asarray(float(fr(full[l]))) for l in all_l}
+        obs["probes"].append({"at": pr, "lpf": xcls(ker.log_prob_fn(stp)(pp)), "model": xcls(iface.log_prob(iface.update_state(pp, stp))),
+                              "closed_form": xcls(dens(fullv)), "coq": coq({l: fr(full[l]) for l in all_l})})
     # (g1) log_prob_fn at a probe position of the block, the rest as in the state
     probe = {names[b]: jnp.asarray(float(fr(spec["probe"][b]))) for b in blocks}
     obs["lpf"] = float(ker.log_prob_fn(st)(probe))
@@ -889,7 +964,176 @@ def glue_emit_goals(ci, c):
     # a non-finite observation where the model is finite (or a move out of the support) cannot agree: the lemma is False
     g1 = f"Rabs ({o['lpf_coq']} - {rlit(F(o['lpf']))}) <= {t8}" if math.isfinite(o["lpf"]) else "False"
     g2 = f"Rabs ({o['lp_new_coq']} - {rlit(F(o['lp_new']))}) <= {t8}" if math.isfinite(o["lp_new"]) else "False"
-    return [(f"c{ci}_log_prob_fn", g1), (f"c{ci}_written_back", g2)]
+    gs_ = [(f"c{ci}_log_prob_fn", g1), (f"c{ci}_written_back", g2)]
+    if c["spec"].get("probe_r"):
+        # log_prob_fn against the closed form of the (transformed) model density at further probes, the other
+        # parameters moved as well
+        for k, pr in enumerate(o.get("probes", [])[:4]):
+            gs_.append((f"c{ci}_log_prob_fn_probe{k}",
+                        f"Rabs ({pr['coq']} - {rlit(F(pr['lpf']))}) <= {t8}" if not isinstance(pr["lpf"], str) else "False"))
+    return gs_
+
+
+# =================================================================================================
+# tau2: the real tau2_gibbs_kernel (distreg.py) draws from the model's full conditional
+# =================================================================================================
+def exact_rank(K) -> int:
+    m = [[fr(x) for x in row] for row in K]
+    n = len(m)
+    r = 0
+    for c in range(n):
+        piv = next((i for i in range(r, n) if m[i][c] != 0), None)
+        if piv is None:
+            continue
+        m[r], m[piv] = m[piv], m[r]
+        for i in range(n):
+            if i != r and m[i][c] != 0:
+                f = m[i][c] / m[r][c]
+                m[i] = [x - f * y for x, y in zip(m[i], m[r])]
+        r += 1
+    return r
+
+
+def diff_pen(p, order):
+    D = [[Fraction(0)] * p for _ in range(p)]
+    rows = [[Fraction(int(i == j)) for j in range(p)] for i in range(p)]
+    for _ in range(order):
+        rows = [[b - a for a, b in zip(rows[i], rows[i + 1])] for i in range(len(rows) - 1)]
+    for i in range(p):
+        for j in range(p):
+            D[i][j] = sum(r[i] * r[j] for r in rows)
+    return [[str(v) for v in row] for row in D]
+
+
+def tau2_observe(spec):
+    j = J()
+    jax, jnp, np, gs = j["jax"], j["jnp"], j["np"], j["gs"]
+    import tensorflow_probability.substrates.jax.distributions as tfd
+    import tensorflow_probability.substrates.jax.bijectors as tfb
+    from liesel.model.distreg import DistRegBuilder, tau2_gibbs_kernel
+    f = lambda rows: np.array([[float(fr(v)) for v in r] for r in rows], dtype=np.float64)
+    b = DistRegBuilder()
+    b.to_float32 = False
+    y = np.array([float(fr(v)) for v in spec["y"]], dtype=np.float64)
+    b.add_response(y, tfd.Normal)
+    b.add_predictor("loc", tfb.Identity)
+    b.add_predictor("scale", tfb.Exp)
+    b.add_p_smooth(np.ones((len(y), 1)), 0.0, 4.0, "scale", name="sc")
+    b.add_np_smooth(f(spec["X"]), f(spec["K"]), float(fr(spec["a"])), float(fr(spec["b"])), "loc", name="s")
+    model = b.build_model()
+    iface = gs.LieselInterface(model)
+    state = iface.update_state({"s_beta": jnp.asarray([float(fr(v)) for v in spec["beta"]]),
+                                "s_a": jnp.asarray(float(fr(spec["a"]))), "s_b": jnp.asarray(float(fr(spec["b"]))),
+                                "sc_beta": jnp.asarray([0.25])}, model.state)
+    group = model.groups()["s"]
+    ker = tau2_gibbs_kernel(group)
+    ker.set_model(iface)
+    tname = group["tau2"].name
+    key = jax.random.PRNGKey(KEY_SEED)
+    calls = []
+    g = float(fr(spec["g"]))
+
+    def fake(k, a, *args, **kw):
+        calls.append(float(np.asarray(a)))
+        return jnp.asarray(g, dtype=jnp.result_type(a))
+
+    with mock.patch("jax.random.gamma", fake):
+        out = ker.transition(key, ker.init_state(key, state), state, epoch("posterior"))
+    draw = float(np.asarray(iface.extract_position([tname], out.model_state)[tname]))
+    lps = [float(iface.log_prob(iface.update_state({tname: jnp.asarray(float(fr(t)))}, state))) for t in spec["ts"]]
+    others = iface.extract_position(["s_beta"], out.model_state)["s_beta"]
+    return {"ncalls": len(calls), "conc": calls[0] if calls else None, "draw": draw, "rate": draw * g, "lps": lps,
+            "rank_exact": exact_rank(spec["K"]), "p": len(spec["beta"]),
+            "beta_same": bool(np.allclose(np.asarray(others), [float(fr(v)) for v in spec["beta"]])),
+            "lp_new": float(iface.log_prob(out.model_state)),
+            "lp_direct": float(iface.log_prob(iface.update_state({tname: jnp.asarray(draw)}, state)))}
+
+
+def tau2_expected(spec, o):
+    bq = [fr(v) for v in spec["beta"]]
+    quad = sum(bq[i] * fr(spec["K"][i][k]) * bq[k] for i in range(len(bq)) for k in range(len(bq)))
+    return fr(spec["a"]) + Fraction(o["rank_exact"], 2), fr(spec["b"]) + quad / 2
+
+
+def tau2_oracle(c):
+    spec, o = c["spec"], c["obs"]
+    desc = (f"tau2_gibbs_kernel, penalty K={spec['K']} (rank {o['rank_exact']} of {o['p']}), beta={spec['beta']}, "
+            f"a={spec['a']}, b={spec['b']}")
+    if o["ncalls"] != 1:
+        return None       # another sampler: the law cannot be read off a patched gamma (C13 judges the draws' distribution)
+    a, b = o["conc"], o["rate"]
+    ea, eb = tau2_expected(spec, o)
+    ts = [float(fr(t)) for t in spec["ts"]]
+    k = lambda t: -(a + 1) * math.log(t) - b / t
+    for i in range(1, len(ts)):
+        dm = o["lps"][i] - o["lps"][0]
+        dk = k(ts[i]) - k(ts[0])
+        if abs(dm - dk) > 1e-7 * (1 + abs(dm)):
+            return (f"{desc}: the kernel draws tau2 ~ InverseGamma({a}, {b}) but the model's full conditional differs: "
+                    f"log p(tau2={spec['ts'][i]} | rest) - log p(tau2={spec['ts'][0]} | rest) = {dm:.10f} (model log_prob) vs {dk:.10f} (kernel); "
+                    f"the full conditional is InverseGamma(a + rank/2 = {float(ea)}, b + beta'K beta/2 = {float(eb)})")
+    if abs(a - float(ea)) > 1e-9 or abs(b - float(eb)) > 1e-9 * (1 + float(eb)):
+        return f"{desc}: kernel law InverseGamma({a}, {b}), full conditional InverseGamma({float(ea)}, {float(eb)})"
+    if not o["beta_same"] or abs(o["lp_new"] - o["lp_direct"]) > 1e-8 * (1 + abs(o["lp_direct"])):
+        return f"{desc}: the returned state is not the input state with tau2 replaced by the draw"
+    return None
+
+
+def tau2_emit_goals(ci, c):
+    spec, o = c["spec"], c["obs"]
+    if o["ncalls"] != 1:
+        return []
+    a, b = rlit(F(o["conc"])), rlit(F(o["rate"]))
+    ea, eb = tau2_expected(spec, o)
+    t8 = rlit(Fraction(1, 10 ** 7))
+    g = [(f"c{ci}_tau2_concentration", f"Rabs ({a} - {rlit(ea)}) <= {rlit(Fraction(1, 10 ** 9))}"),
+         (f"c{ci}_tau2_scale", f"Rabs ({b} - {rlit(eb)}) <= {rlit(Fraction(1, 10 ** 9) * (1 + eb))}")]
+    t0 = rlit(fr(spec["ts"][0]))
+    for i in range(1, len(spec["ts"])):
+        ti = rlit(fr(spec["ts"][i]))
+        dm = F(o["lps"][i]) - F(o["lps"][0])
+        g.append((f"c{ci}_tau2_conditional_{i}",
+                  f"Rabs ((ig_logkernel {a} {b} {ti} - ig_logkernel {a} {b} {t0}) - {rlit(dm)}) <= {rlit(Fraction(1, 10 ** 7) * (1 + abs(dm)))}"))
+    return g
+
+
+def tau2_py_disagree(ci, c):
+    spec, o = c["spec"], c["obs"]
+    if o["ncalls"] != 1:
+        return []
+    bad = []
+    ea, eb = tau2_expected(spec, o)
+    if abs(o["conc"] - float(ea)) > 1e-9:
+        bad.append(f"c{ci}_tau2_concentration")
+    if abs(o["rate"] - float(eb)) > 1e-9 * (1 + float(eb)):
+        bad.append(f"c{ci}_tau2_scale")
+    ts = [float(fr(t)) for t in spec["ts"]]
+    k = lambda t: -(o["conc"] + 1) * math.log(t) - o["rate"] / t
+    for i in range(1, len(ts)):
+        dm = o["lps"][i] - o["lps"][0]
+        if abs(dm - (k(ts[i]) - k(ts[0]))) > 1e-7 * (1 + abs(dm)):
+            bad.append(f"c{ci}_tau2_conditional_{i}")
+    return bad
+
+
+def gen_tau2(rnd, kind=None):
+    p = rnd.choice([3, 4, 5])
+    kind = kind or rnd.choice(["full", "diff1", "diff2", "block"])
+    if kind == "full":
+        K = [[str(Fraction(int(i == k) * 2 + (abs(i - k) == 1) * -1 + int(i == k))) for k in range(p)] for i in range(p)]
+    elif kind == "diff1":
+        K = diff_pen(p, 1)
+    elif kind == "diff2":
+        K = diff_pen(p, 2)
+    else:
+        K = [[str(Fraction(int(i == k and i < p - 2))) for k in range(p)] for i in range(p)]       # rank p - 2
+    n = p + 2
+    return {"K": K, "beta": [str(dy(rnd, -2, 2, 4)) for _ in range(p)], "a": str(Fraction(rnd.choice([2, 3, 5, 8]), 2)),
+            "b": str(Fraction(rnd.choice([1, 2, 3, 6]), 4)), "X": [[str(dy(rnd, -1, 1, 4)) for _ in range(p)] for _ in range(n)],
+            "y": [str(dy(rnd, -2, 2, 4)) for _ in range(n)], "g": str(Fraction(rnd.choice([3, 5, 8, 12]), 4)),
+            "ts": [str(Fraction(v, 4)) for v in sorted(rnd.sample(range(1, 24), 4))], "pen": kind}
+
+
 
 
 # =================================================================================================
@@ -1091,6 +1335,13 @@ CORPUS_CONT = [
     {"target": dict(LM1, blk="mu", other="1/8"), "kernel": "rw", "step": "3/4", "x": "1/4", "z": "-1"},
     {"target": dict(LM1, blk="theta", other="-1/2"), "kernel": "rw", "step": "1/4", "x": "1/2", "z": "2", "epoch": "burnin"},
 ]
+HIER1 = {"name": "hier", "y": "3", "sd": "1/2"}
+CORPUS_CONT += [
+    {"target": dict(HIER1, blk="u", other="3/2"), "kernel": "rw", "step": "1/2", "x": "1/4", "z": "-3/4"},
+    {"target": dict(HIER1, blk="t", other="1/2"), "kernel": "rw", "step": "1/4", "x": "5/4", "z": "1"},
+    {"target": dict(HIER1, blk="t", other="1"), "kernel": "iwls", "step": "1/2", "x": "3/2", "z": "-1/2", "epoch": "burnin"},
+    {"target": dict(HIER1, blk="u", other="7/4"), "kernel": "iwls", "step": "1/2", "x": "3/4", "z": "1/2"},
+]
 CORPUS_GLUE = [
     {"kernel": "hmc", "model": dict(LM1), "blocks": ["mu", "theta"], "imm": ["1", "1/2"], "step": "1/5", "n": 3, "seed": 5,
      "pos": {"mu": "1/4", "theta": "3/8"}, "probe": {"mu": "1", "theta": "1/2"}},
@@ -1100,6 +1351,14 @@ CORPUS_GLUE = [
 
 
 LMRAW1 = {"name": "lmraw", "ys": ["1/2", "5/4", "-3/4", "2", "1"], "tau": "2", "rate": "1/2"}
+CORPUS_GLUE_HIER = [
+    {"kernel": "nuts", "model": dict(HIER1), "blocks": ["t", "u"], "imm": ["1", "1"], "step": "1/4", "n": 2, "seed": 3,
+     "pos": {"t": "5/4", "u": "1/2"}, "probe": {"t": "3/2", "u": "-1/4"}, "probe_r": True,
+     "probe_list": [{"t": "1/2", "u": "1"}, {"t": "2", "u": "-1"}, {"t": "-1/2", "u": "3/4"}]},
+    {"kernel": "hmc", "model": dict(HIER1), "blocks": ["u"], "imm": ["1"], "step": "1/4", "n": 2, "seed": 4,
+     "pos": {"t": "3/2", "u": "1/4"}, "probe": {"u": "1"}, "probe_r": True,
+     "probe_list": [{"u": "1/2", "t": "1/2"}, {"u": "-1", "t": "2"}, {"u": "3/4", "t": "1"}]},
+]
 CORPUS_SUPPORT = [
     # bounded parameter on its original scale, log-density NaN below 0 and -inf at 0 (dict model)
     {"kernel": "hmc", "model": {"name": "pg"}, "blocks": ["lam"], "imm": ["1"], "step": "1/2", "n": 3, "seed": 0,
@@ -1113,6 +1372,7 @@ CORPUS_SUPPORT = [
      "seeds": list(range(40)), "pos": {"mu": "1/2", "sigma": "1/4"}, "probe": {"sigma": "3/2"},
      "probe_list": [{"sigma": "3/2"}, {"sigma": "-1"}, {"sigma": "0"}, {"sigma": "-1/8"}]},
 ]
+CORPUS_TAU2 = [gen_tau2(random.Random(4041), "full"), gen_tau2(random.Random(4042), "diff1"), gen_tau2(random.Random(4043), "diff2")]
 CORPUS_KEYS = [
     {"mode": "record", "m": 2, "T": 4, "seed": 0},
     {"mode": "record", "m": 3, "T": 5, "seed": 1337, "epoch": "burnin"},
@@ -1145,6 +1405,8 @@ def gen_cont(rnd, lms=(LM1,)):
         t = {"name": "pair", "blk": rnd.choice(["a", "b"]), "other": str(dy(rnd, -2, 2, 4))}
     else:
         t = dict(rnd.choice(lms), blk=rnd.choice(["mu", "theta"]), other=str(dy(rnd, -1, 1, 8)))
+    if rnd.random() < 0.15:
+        t = dict(HIER1, blk=rnd.choice(["t", "u"]), other=str(dy(rnd, 0, 2, 8)))
     z = dy(rnd, -2, 2, 8)
     if z == 0:
         z = Fraction(5, 8)
@@ -1177,6 +1439,8 @@ def observe(c, **kw):
         return cont_observe(c["spec"])
     if c["kind"] == "keys":
         return keys_observe(c["spec"])
+    if c["kind"] == "tau2":
+        return tau2_observe(c["spec"])
     return glue_observe(c["spec"])
 
 
@@ -1187,6 +1451,8 @@ def describe(c):
                 + (".reads_derived_nodes" if s.get("derived") else ""))
     if c["kind"] == "cont":
         return f"cont.{s['kernel']}.{s['target']['name']}" + ("." + s["target"]["blk"] if "blk" in s["target"] else "")
+    if c["kind"] == "tau2":
+        return f"tau2_gibbs.{s.get('pen', 'K')}" + ("" if exact_rank(s["K"]) == len(s["beta"]) else ".rank_deficient")
     if c["kind"] == "keys":
         return f"keys.record.{s['m']}kernels" if s["mode"] == "record" else "keys.coupling." + "+".join(s["kernels"])
     return f"glue.{s['kernel']}.{s['model']['name']}." + "+".join(s["blocks"]) + (".boundary" if s.get("seeds") else "")
@@ -1198,6 +1464,10 @@ def specs(ctx, rnd):
     out += [{"kind": "cont", "spec": dict(s)} for s in CORPUS_CONT]
     out += [{"kind": "glue", "spec": dict(s)} for s in CORPUS_GLUE]
     out += [{"kind": "glue", "spec": dict(s)} for s in CORPUS_SUPPORT]
+    out += [{"kind": "glue", "spec": dict(s)} for s in CORPUS_GLUE_HIER]
+    out += [{"kind": "tau2", "spec": dict(s)} for s in CORPUS_TAU2]
+    for _ in range(0 if q else 8):
+        out.append({"kind": "tau2", "spec": gen_tau2(rnd)})
     out += [{"kind": "keys", "spec": dict(s)} for s in CORPUS_KEYS]
     if not q:
         for _ in range(6):
@@ -1307,7 +1577,7 @@ def generate(ctx):
 
 
 def oracle(c):
-    return {"fin": fin_oracle, "cont": cont_oracle, "glue": glue_oracle, "keys": keys_oracle}[c["kind"]](c)
+    return {"fin": fin_oracle, "cont": cont_oracle, "glue": glue_oracle, "keys": keys_oracle, "tau2": tau2_oracle}[c["kind"]](c)
 
 
 def emit(ctx, cases):
@@ -1317,6 +1587,8 @@ def emit(ctx, cases):
         if c["kind"] == "fin":
             for p in fin_emit(ctx, i, c):
                 shards.append((p, [i]))
+        elif c["kind"] == "tau2":
+            goals += [(i, n, g) for n, g in tau2_emit_goals(i, c)]
         elif c["kind"] == "keys":
             p = keys_emit(ctx, i, c)
             if p:
@@ -1344,6 +1616,8 @@ def py_disagree(ci, c):
     spec, o = c["spec"], c["obs"]
     if c["kind"] == "keys":
         return [f"c{ci}_keys_ok"] if spec["mode"] == "record" and keys_bad_transitions(o) else []
+    if c["kind"] == "tau2":
+        return tau2_py_disagree(ci, c)
     if c["kind"] == "fin":
         nb = spec["nb"]
         n = spec["na"] * nb
@@ -1388,7 +1662,7 @@ def py_disagree(ci, c):
         L, R = math.exp(lp(x) + lq(x, y)), math.exp(lp(y) + lq(y, x))
         if abs(L * o["fwd"]["acc"] - R * o["bwd"]["acc"]) > 1e-8 * max(L, R):
             bad.append(f"c{ci}_detailed_balance")
-        if spec["target"]["name"] in ("pair", "lm") and abs(lp(y) - o["fwd"]["lp"]) > 1e-8:
+        if spec["target"]["name"] in ("pair", "lm", "hier") and abs(lp(y) - o["fwd"]["lp"]) > 1e-8:
             bad.append(f"c{ci}_state_coherent")
     else:
         iface, state_of, dens, coq, names = glue_env(spec)
@@ -1402,6 +1676,10 @@ def py_disagree(ci, c):
             if not ((a == b) if isinstance(a, str) or isinstance(b, str) else abs(a - b) <= 1e-8):
                 bad.append(f"c{ci}_log_prob_fn_classes")
                 break
+        for k, pr in enumerate(o.get("probes", [])[:4]):
+            a, b = pr["lpf"], pr["closed_form"]
+            if spec.get("probe_r") and not ((a == b) if isinstance(a, str) or isinstance(b, str) else abs(a - b) <= 1e-8):
+                bad.append(f"c{ci}_log_prob_fn_probe{k}")
     return bad
 
 
@@ -1454,6 +1732,7 @@ def search(ctx, disagreeing):
     extra = [{"kind": "cont", "spec": gen_cont(rnd)} for _ in range(60)]
     extra += [{"kind": "fin", "spec": gen_fin(rnd, "dict", 2, 3, [("mh", "a"), ("gibbs", "b"), ("mh", "b")])} for _ in range(3)]
     extra += [{"kind": "glue", "spec": gen_glue(rnd)} for _ in range(3)]
+    extra += [{"kind": "tau2", "spec": gen_tau2(rnd, k)} for k in ("diff1", "diff2", "block")]
     extra += [{"kind": "keys", "spec": {"mode": "record", "m": m, "T": 4, "seed": rnd.randrange(2 ** 31)}} for m in (2, 3, 4)]
     for c in extra:
         try:
